@@ -39,6 +39,13 @@ pub static REALISATION: std::sync::atomic::AtomicUsize = std::sync::atomic::Atom
 /// walk this through every length up to 300, because nothing says a writer treats all lengths alike
 pub static KEYINFO_LEN: std::sync::atomic::AtomicUsize = std::sync::atomic::AtomicUsize::new(0);
 
+/// The session id a model session stands for.  In the edge realisation the ids are small numbers: the header field that
+/// carries a session id carries an error code in an Error PDU and flags in a payload PDU (model session 1 is id 4, the code of
+/// "unsupported protocol version"; the next ones 5, 6, ... and the foreign session 7 is id 10).
+pub fn sess_id(s: u64) -> u16 {
+    if REALISATION.load(std::sync::atomic::Ordering::SeqCst) == 1 { 3 + s as u16 } else { 100 + s as u16 }
+}
+
 pub fn payload_of(it: &Item) -> Payload {
     if REALISATION.load(std::sync::atomic::Ordering::SeqCst) == 1 {
         return match it.1.as_str() {
@@ -154,7 +161,7 @@ pub struct SrcState {
 
 impl SrcState {
     fn state_of(&self, v: &Version) -> State {
-        State::from_parts(100 + v.session as u16, Serial(self.serial_base.wrapping_add(v.serial as u32)))
+        State::from_parts(sess_id(v.session), Serial(self.serial_base.wrapping_add(v.serial as u32)))
     }
     /// the library is about to make its next call into the source
     fn ev(&self, e: Value) {
@@ -478,7 +485,7 @@ fn run_behaviour(c: &Value, serial_base: u32) -> Result<(), (String, String)> {
         if a.is_empty() {
             return None;
         }
-        Some(State::from_parts(100 + a[0].as_u64().unwrap() as u16, Serial(serial_base.wrapping_add(a[1].as_u64().unwrap() as u32))))
+        Some(State::from_parts(sess_id(a[0].as_u64().unwrap()), Serial(serial_base.wrapping_add(a[1].as_u64().unwrap() as u32))))
     };
     let mut target = Target::default();
     target.data = init["data"].as_array().unwrap().iter().map(item_of).collect();
@@ -563,7 +570,7 @@ fn run_behaviour(c: &Value, serial_base: u32) -> Result<(), (String, String)> {
                 let st = client.state().map(|s| (s.session(), s.serial().0));
                 let s = src.0.lock().unwrap();
                 let eff = cli_init.min(srv_max) as u64;
-                let named = s.hist.iter().find(|v| Some((100 + v.session as u16, serial_base.wrapping_add(v.serial as u32))) == st);
+                let named = s.hist.iter().find(|v| Some((sess_id(v.session), serial_base.wrapping_add(v.serial as u32))) == st);
                 return match named {
                     None => Err(("cross:state".into(), format!("step {} finished across a Serial Notify naming a state {st:?} the source never had", i + 1))),
                     Some(v) => {
@@ -590,7 +597,7 @@ fn run_behaviour(c: &Value, serial_base: u32) -> Result<(), (String, String)> {
                 if t.data != exp.data {
                     return Err(("beyond:fail:data".into(), format!("step {} failed; client data {:?}, specification {:?}", i + 1, t.data, exp.data)));
                 }
-                let want_state = exp.state.map(|(s, n)| (100 + s as u16, serial_base.wrapping_add(n as u32)));
+                let want_state = exp.state.map(|(s, n)| (sess_id(s), serial_base.wrapping_add(n as u32)));
                 let got_state = client.state().map(|s| (s.session(), s.serial().0));
                 if got_state != want_state {
                     return Err(("beyond:fail:state".into(), format!("step {} failed; client state {got_state:?}, specification {want_state:?}", i + 1)));
@@ -608,7 +615,7 @@ fn run_behaviour(c: &Value, serial_base: u32) -> Result<(), (String, String)> {
             if t.data != exp.data {
                 return Err(("data".into(), format!("step {}: client data {:?}, specification {:?}", i + 1, t.data, exp.data)));
             }
-            let want_state = exp.state.map(|(s, n)| (100 + s as u16, serial_base.wrapping_add(n as u32)));
+            let want_state = exp.state.map(|(s, n)| (sess_id(s), serial_base.wrapping_add(n as u32)));
             let got_state = client.state().map(|s| (s.session(), s.serial().0));
             if got_state != want_state {
                 return Err(("state".into(), format!("step {}: client state {got_state:?}, specification {want_state:?}", i + 1)));
@@ -692,7 +699,7 @@ pub fn drive(args: &[String]) {
     let mut target = Target::default();
     target.data = init_data.into_iter().collect();
     let mut s = Summary::new();
-    let st0 = if init_state.is_empty() { None } else { Some(State::from_parts(100 + init_state[0] as u16, Serial(serial_base.wrapping_add(init_state[1] as u32)))) };
+    let st0 = if init_state.is_empty() { None } else { Some(State::from_parts(sess_id(init_state[0]), Serial(serial_base.wrapping_add(init_state[1] as u32)))) };
     let rt = tokio::runtime::Builder::new_current_thread().enable_time().start_paused(true).build().unwrap();
     let el = evlog.clone();
     let src2 = src.clone();
